@@ -66,11 +66,11 @@ func runEnv(c EnvCase, dir string) error {
 	// besides OTHER, the parent environment holds names that nothing overrides but that resemble names which are
 	// set on the way: the layered name in another case and as a prefix / suffix of other names, and case variants of
 	// the names the runner sets itself
-	line := `printf '%s FOO=%%s OTHER=%%s TN=%%s\n' "$FOO" "$OTHER" "$TASK_NAME"; printf '%s NEAR=%%s\n' "$foo,$Foo,$FOO_X,$XFOO,$task_name,$args"`
-	task := gen.Map{{K: "command", V: gen.List{fmt.Sprintf(line, "CMD", "CMD")}}}
+	line := `printf '%s FOO=%%s OTHER=%%s TN=%%s\n' "$FOO" "$OTHER" "$TASK_NAME"; printf '%s NEAR=%%s\n' "$foo,$Foo,$FOO_X,$XFOO,$task_name,$args"; printf '%s EQ=[%%s][%%s][%%s]\n' "$EQ1" "$EQ2" "$EQ3"`
+	task := gen.Map{{K: "command", V: gen.List{fmt.Sprintf(line, "CMD", "CMD", "CMD")}}}
 	if c.Hooks {
-		task = task.Set("before", gen.List{fmt.Sprintf(line, "BEFORE", "BEFORE")})
-		task = task.Set("after", gen.List{fmt.Sprintf(line, "AFTER", "AFTER")})
+		task = task.Set("before", gen.List{fmt.Sprintf(line, "BEFORE", "BEFORE", "BEFORE")})
+		task = task.Set("after", gen.List{fmt.Sprintf(line, "AFTER", "AFTER", "AFTER")})
 	}
 	cfg := gen.Map{}
 	if has(1) {
@@ -94,7 +94,10 @@ func runEnv(c EnvCase, dir string) error {
 	}
 	cfg = cfg.Set("pipelines", gen.Map{{K: "pp", V: gen.List{stage}}})
 	os.WriteFile(filepath.Join(dir, "t.yaml"), []byte(gen.YAML(cfg)), 0o644)
-	extra := []string{"OTHER=passthru value", "foo=p1", "Foo=p2", "FOO_X=p3", "XFOO=p4", "task_name=p5", "args=p6"}
+	extra := []string{"OTHER=passthru value", "foo=p1", "Foo=p2", "FOO_X=p3", "XFOO=p4", "task_name=p5", "args=p6",
+		// inherited values that contain '=' themselves
+		"EQ1=-Dmode=fast -Dlevel=3", "EQ2==", "EQ3=abc="}
+	const eqWant = "EQ=[-Dmode=fast -Dlevel=3][=][abc=]\n"
 	const nearWant = "NEAR=p1,p2,p3,p4,p5,p6\n"
 	if has(0) {
 		extra = append(extra, "FOO="+val(0))
@@ -135,6 +138,11 @@ func runEnv(c EnvCase, dir string) error {
 	for _, tag := range []string{"CMD", "BEFORE", "AFTER"} {
 		if n := strings.Count(r.Stdout, tag+" NEAR="); n != strings.Count(r.Stdout, tag+" "+nearWant) {
 			return fmt.Errorf("levels %v defined: parent variables that nothing overrides (foo, Foo, FOO_X, XFOO, task_name, args = p1..p6) must pass through unchanged: want every %q line to read %q, stdout %q", present(c.Mask), tag+" NEAR", nearWant, r.Stdout)
+		}
+	}
+	for _, tag := range []string{"CMD", "BEFORE", "AFTER"} {
+		if n := strings.Count(r.Stdout, tag+" EQ="); n != strings.Count(r.Stdout, tag+" "+eqWant) || (tag == "CMD" && n == 0) {
+			return fmt.Errorf("levels %v defined: inherited values containing '=' must reach the commands unchanged: want every %q line to read %q, stdout %q", present(c.Mask), tag+" EQ", eqWant, r.Stdout)
 		}
 	}
 	if !strings.Contains(r.Stdout, "CMD "+nearWant) {
